@@ -36,6 +36,7 @@ type State struct {
 	env        *object.Environment
 	rootEnv    *object.Environment // same as ancestor of env but used for reset in panic recovery.
 	cache      Cache
+	cacheGen   int64 // rootEnv.Generation() the cache content is valid for.
 	Extensions object.ExtensionMap
 	NoLog      bool // turn log() into println() (for EvalString)
 	// Max depth / recursion level - default DefaultMaxDepth,
